@@ -106,7 +106,9 @@ static void run_case(mscn *s, long idx) {
     int hc = g_h.count;
     if (hc > 1) { snprintf(obs, sizeof obs, "%d handler invocations, rc %s", hc, errname(rc)); vio("C05", s, idx, "R1-handler-invoked-more-than-once", det, obs); }
     else if (hc == 1 && g_h.code[0] != rc) { snprintf(obs, sizeof obs, "handler got %s, returned %s", errname(g_h.code[0]), errname(rc)); vio("C05", s, idx, "R2-handler-code-differs-from-returned-code", det, obs); }
-    else if (hc == 0 && rc != EOK) { snprintf(obs, sizeof obs, "returned %s without handler", errname(rc)); vio("C05", s, idx, "R3-failure-returned-without-handler", det, obs); }
+    /* an encoding error is not a runtime-constraint violation (K.3.6.5.1: "returns zero if no runtime-constraint violation and no encoding
+       error occurred"): EILSEQ without a handler call is conforming */
+    else if (hc == 0 && rc != EOK && rc != EILSEQ) { snprintf(obs, sizeof obs, "returned %s without handler", errname(rc)); vio("C05", s, idx, "R3-failure-returned-without-handler", det, obs); }
     /* C03 / C04 / C08 */
     size_t dlen = 0; int term = 0;
     if (dest) { for (dlen = 0; dlen < dmax; dlen++) if ((ew == 4 ? ((uint32_t *)dest)[dlen] : dest[dlen]) == 0) { term = 1; break; } }
